@@ -164,6 +164,14 @@ func checkC14(c *Case, st *Stats) string {
 	if msg := compareCallLogs(lib.rec, res, st, c.AST); msg != "" {
 		return msg
 	}
+	// the same call protocol holds in accessor mode: functions see plain values
+	acc := evalLibrary(c, c.Document(), true)
+	st.Eval(1)
+	if acc.parseErr == nil {
+		if msg := compareCallLogs(acc.rec, res, st, c.AST); msg != "" {
+			return "accessor mode: " + msg
+		}
+	}
 	info := DescribeErr(lib.err)
 	if len(res.Nodes) > 0 {
 		if lib.err != nil {
